@@ -159,8 +159,26 @@ def _sweep(case, only=None):
         bad("error.untruthful_payload", "reference", f"ZeroFindingError reports error {ref['error']} <= accuracy {acc}", ["ref"])
     # ---- 1. iteration-cap abort sweep
     caps = CAPS if only is None else [c for c in only if isinstance(c, int)]
+    errs = {}              # cap k -> miss after k iterations (known whenever the capped call raised ZeroFindingError)
+    windows = 0
     for k in caps:
         out, _, _, _ = _zero_once(case, dict(base, cMaxIterations=k))
+        if out["kind"] == "ZeroFindingError" and out.get("iterations") == k and k >= 1 and only is None:
+            errs[k] = out["error"]
+            acc_w = out["error"] / 1.5
+            # the abort aimed at the window (accuracy, 2 x accuracy]: the iterations of a search do not depend on the accuracy
+            # (only its stopping does), so with accuracy e_k / 1.5 - below every miss e_1 .. e_k seen so far - and the same
+            # cap k the search again ends on the cap with miss e_k > accuracy, and must raise
+            if windows < 2 and acc_w > 0 and all(j in errs and errs[j] > acc_w for j in range(1, k + 1)):
+                windows += 1
+                outw, _, _, _ = _zero_once(case, dict(base, cMaxIterations=k, cZeroFindingAccuracy=acc_w))
+                stats["cap_runs"] += 1
+                stats["window_runs"] = stats.get("window_runs", 0) + 1
+                h.append(["window", k, outw["kind"], outw.get("value")])
+                if outw["kind"] == "ok":
+                    bad("cap.unconverged_angle_returned", "window",
+                        f"cap {k} with accuracy {acc_w!r}: after {k} iterations the miss is {out['error']!r} (> accuracy), yet an "
+                        f"angle was returned", None)
         stats["cap_runs"] += 1
         h.append([k, out["kind"], out.get("value")])
         if out["kind"] == "ok":
